@@ -773,7 +773,8 @@ Theorem gradient_exact :
     (forall w, length w = length v -> is_derive (fun t => res (line v w t)) 0 (dot g w)) /\
     (forall k, (k < length v)%nat -> is_derive (fun s => res (upd v k s)) (nth k v 0) (nth k g 0)).
 Proof.
-  destruct gradient_directional as (g & Hj & Lg & Hd). exists g. repeat split; auto.
+  destruct gradient_directional as (g & Hj & Lg & Hd). exists g.
+  split; [exact Hj|]. split; [exact Lg|]. split; [exact Hd|].
   intros k Hk. set (e := upd (repeat 0 (length v)) k 1). set (vk := nth k v 0).
   assert (Le : length e = length v) by (unfold e; rewrite upd_length, repeat_length; reflexivity).
   pose proof (Hd e Le) as H0.
@@ -787,3 +788,190 @@ Proof.
     unfold scal; simpl; unfold mult; simpl. ring.
 Qed.
 End Gradient.
+
+(* ------------------------------------------------------------------ *)
+(* 7. the built-in model functions satisfy the per-pixel hypothesis     *)
+(* ------------------------------------------------------------------ *)
+(* a geometry is sound at the position/size slices q satisfying okq when dr2
+   is the gradient of r2 there *)
+Definition geom_ok (G : geometry) (okq : list R -> Prop) : Prop :=
+  forall m q dq, length q = g_np G -> length dq = g_np G -> okq q ->
+    is_derive (fun t => g_r2 G m (line q dq t)) 0 (dot (g_dr2 G m q) dq) /\
+    length (g_dr2 G m q) = g_np G.
+
+(* admissible slices: every size is non-zero *)
+Definition ok_iso2d (q : list R) : Prop := nth 2 q 0 <> 0.
+Definition ok_iso3d (q : list R) : Prop := nth 3 q 0 <> 0.
+Definition ok_aniso2d (q : list R) : Prop := nth 2 q 0 <> 0 /\ nth 3 q 0 <> 0.
+Definition ok_aniso3d (q : list R) : Prop := nth 3 q 0 <> 0 /\ nth 4 q 0 <> 0 /\ nth 5 q 0 <> 0.
+
+Lemma geom_iso2d_ok : geom_ok geom_iso2d ok_iso2d.
+Proof.
+  intros m q dq Hq Hdq Hok. unfold ok_iso2d in Hok.
+  destruct q as [|a0 [|a1 [|a2 [|]]]]; try discriminate.
+  destruct dq as [|b0 [|b1 [|b2 [|]]]]; try discriminate.
+  unfold geom_iso2d, line. cbn [g_r2 g_dr2 g_np zipw nth] in *. split; [|reflexivity].
+  apply r2_isotropic_2d_dir. exact Hok.
+Qed.
+
+Lemma geom_iso3d_ok : geom_ok geom_iso3d ok_iso3d.
+Proof.
+  intros m q dq Hq Hdq Hok. unfold ok_iso3d in Hok.
+  destruct q as [|a0 [|a1 [|a2 [|a3 [|]]]]]; try discriminate.
+  destruct dq as [|b0 [|b1 [|b2 [|b3 [|]]]]]; try discriminate.
+  unfold geom_iso3d, line. cbn [g_r2 g_dr2 g_np zipw nth] in *. split; [|reflexivity].
+  apply r2_isotropic_3d_dir. exact Hok.
+Qed.
+
+Lemma geom_aniso2d_ok : geom_ok geom_aniso2d ok_aniso2d.
+Proof.
+  intros m q dq Hq Hdq Hok. unfold ok_aniso2d in Hok.
+  destruct q as [|a0 [|a1 [|a2 [|a3 [|]]]]]; try discriminate.
+  destruct dq as [|b0 [|b1 [|b2 [|b3 [|]]]]]; try discriminate.
+  unfold geom_aniso2d, line. cbn [g_r2 g_dr2 g_np zipw nth] in *. split; [|reflexivity].
+  destruct Hok. apply r2_anisotropic_2d_dir; assumption.
+Qed.
+
+Lemma geom_aniso3d_ok : geom_ok geom_aniso3d ok_aniso3d.
+Proof.
+  intros m q dq Hq Hdq Hok. unfold ok_aniso3d in Hok.
+  destruct q as [|a0 [|a1 [|a2 [|a3 [|a4 [|a5 [|]]]]]]]; try discriminate.
+  destruct dq as [|b0 [|b1 [|b2 [|b3 [|b4 [|b5 [|]]]]]]]; try discriminate.
+  unfold geom_aniso3d, line. cbn [g_r2 g_dr2 g_np zipw nth] in *. split; [|reflexivity].
+  destruct Hok as (? & ? & ?). apply r2_anisotropic_3d_dir; assumption.
+Qed.
+
+Lemma split_last : forall (l : list R) k, length l = S k -> exists q a, l = q ++ [a] /\ length q = k.
+Proof.
+  intros l k H. destruct (exists_last (l := l)) as (q & a & E); [intro; subst; discriminate|].
+  exists q, a. split; [exact E|]. subst l. rewrite app_length in H. simpl in H. lia.
+Qed.
+
+(* gauss: rows are (background, signal, <pos>, <size>) *)
+Lemma gauss_pixel : forall G okq, geom_ok G okq ->
+  forall {X : Type} ndim (mesh : X -> list R) (mask : nat -> X -> bool) i x p dp,
+  length p = (2 + g_np G)%nat -> length dp = length p -> okq (geo_slice G p) ->
+  is_derive (fun t => gauss_val G ndim mesh mask i x (line p dp t)) 0
+            (dot (gauss_row G ndim mesh mask i x p) (tl dp)).
+Proof.
+  intros G okq HG X ndim mesh mask i x p dp Hp Hdp Hok.
+  unfold gauss_val, gauss_row. destruct (mask i x).
+  2:{ simpl. apply (is_derive_const 0 0). }
+  destruct p as [|b [|s q]]; try discriminate. destruct dp as [|db [|ds dq]]; try discriminate.
+  simpl in Hp, Hdp. assert (Hq : length q = g_np G) by lia. assert (Hdq : length dq = g_np G) by lia.
+  unfold geo_slice in *. cbn [skipn tl nth] in *.
+  rewrite firstn_all2 in Hok by lia. rewrite (firstn_all2 (n := g_np G) q) by lia.
+  destruct (HG (mesh x) q dq Hq Hdq Hok) as [Hr2 Hlen].
+  apply (is_derive_ext (fun t => (s + t * ds) * gauss_fun (g_r2 G (mesh x) (line q dq t)) ndim)).
+  { intro t. unfold line. cbn [zipw skipn nth]. rewrite firstn_all2; [reflexivity|].
+    rewrite zipw_length by congruence. lia. }
+  pose proof (pixel_gauss (fun t => g_r2 G (mesh x) (line q dq t)) (g_dr2 G (mesh x) q) dq s ds ndim
+                ltac:(congruence) Hr2) as H.
+  cbv beta in H. rewrite (line_0 q dq) in H by congruence. exact H.
+Qed.
+
+(* ring: rows are (background, signal, <pos>, <size>, thickness); the reduced
+   radius must be positive (the _safe radius functions drop the pixels within
+   1 px of the centre) and the thickness non-zero *)
+Lemma ring_pixel : forall G okq, geom_ok G okq ->
+  forall {X : Type} ndim (mesh : X -> list R) (mask : nat -> X -> bool) i x p dp,
+  length p = (3 + g_np G)%nat -> length dp = length p -> okq (geo_slice G p) ->
+  nth (2 + g_np G) p 0 <> 0 ->
+  (mask i x = true -> 0 < g_r2 G (mesh x) (geo_slice G p)) ->
+  is_derive (fun t => ring_val G ndim mesh mask i x (line p dp t)) 0
+            (dot (ring_row G ndim mesh mask i x p) (tl dp)).
+Proof.
+  intros G okq HG X ndim mesh mask i x p dp Hp Hdp Hok Hth Hpos.
+  unfold ring_val, ring_row. destruct (mask i x).
+  2:{ simpl. apply (is_derive_const 0 0). }
+  specialize (Hpos eq_refl).
+  destruct p as [|b [|s p']]; try discriminate. destruct dp as [|db [|ds dp']]; try discriminate.
+  simpl in Hp, Hdp.
+  destruct (split_last p' (g_np G) ltac:(lia)) as (q & th & -> & Hq).
+  destruct (split_last dp' (g_np G) ltac:(lia)) as (dq & dth & -> & Hdq).
+  unfold geo_slice in *. cbn [skipn tl] in *.
+  assert (Eth : forall (l : list R) a b0 s0, length l = g_np G -> nth (2 + g_np G) (b0 :: s0 :: l ++ [a]) 0 = a).
+  { intros l a b0 s0 Hl. change (2 + g_np G)%nat with (S (S (g_np G))). cbn [nth]. rewrite app_nth2 by lia. rewrite Hl, Nat.sub_diag. reflexivity. }
+  rewrite Eth in Hth |- * by exact Hq.
+  rewrite (firstn_app_exact q [th] _ Hq) in Hok, Hpos |- *.
+  destruct (HG (mesh x) q dq Hq Hdq Hok) as [Hr2 Hlen].
+  apply (is_derive_ext (fun t => (s + t * ds) * ring_fun (g_r2 G (mesh x) (line q dq t)) (th + t * dth) ndim)).
+  { intro t. unfold line. cbn [zipw skipn]. rewrite (zipw_app _ q [th] dq [dth]) by congruence. cbn [zipw].
+    rewrite Eth by (rewrite zipw_length; congruence).
+    rewrite firstn_app_exact by (rewrite zipw_length; congruence). cbn [nth]. reflexivity. }
+  pose proof (pixel_ring (fun t => g_r2 G (mesh x) (line q dq t)) (g_dr2 G (mesh x) q) dq s ds th dth ndim
+                ltac:(congruence)) as H.
+  cbv beta in H. rewrite (line_0 q dq) in H by congruence. exact (H Hpos Hth Hr2).
+Qed.
+
+Lemma unpack_length : forall groups n modes (v : list R) cols P rest,
+  unpack groups n modes v cols = Some (P, rest) -> length P = length modes.
+Proof.
+  intros groups n modes. induction modes as [|m ms IH]; intros v [|c cs] P rest H; simpl in H; try discriminate.
+  - inversion H. reflexivity.
+  - destruct (unpack_col groups n m v c) as [[c' r]|]; [|discriminate].
+    destruct (unpack groups n ms r cs) as [[P' r']|] eqn:E; [|discriminate].
+    inversion H; subst. simpl. f_equal. eapply IH; eauto.
+Qed.
+
+Section Instances.
+Context {X : Type}.
+Variables (G : geometry) (okq : list R -> Prop).
+Hypothesis HG : geom_ok G okq.
+Variables (ndim : R) (mesh : cluster X -> X -> list R) (mask : cluster X -> nat -> X -> bool).
+Variables (cls : list (cluster X)) (groups : groups_t) (n m0 : nat) (ms : list nat)
+          (cols0 : list (list R)) (norm : R) (v : list R).
+Hypothesis HLm : length (m0 :: ms) = length cols0.
+Hypothesis HS0 : List.Forall (fun c => length c = n) cols0.
+Hypothesis HW : List.Forall (mode_wf groups n) (m0 :: ms).
+Hypothesis HV : length v = packed_len groups n (m0 :: ms).
+Hypothesis Hcl : map cl_idx cls = cl_groups_of groups n.
+Hypothesis Hpart : partition n (cl_groups_of groups n).
+Hypothesis Hbg : bg_mode_ok groups (cl_groups_of groups n) m0.
+
+Definition gradient_statement : Prop :=
+  exists g, jacobian cls groups n (m0 :: ms) cols0 norm v = Some g /\ length g = length v /\
+    (forall w, length w = length v ->
+       is_derive (fun t => residual cls groups n (m0 :: ms) cols0 norm (line v w t)) 0 (dot g w)) /\
+    (forall k, (k < length v)%nat ->
+       is_derive (fun s => residual cls groups n (m0 :: ms) cols0 norm (upd v k s)) (nth k v 0) (nth k g 0)).
+
+Theorem gradient_exact_gauss :
+  length ms = (1 + g_np G)%nat ->
+  (forall c, In c cls -> cl_val c = gauss_val G ndim (mesh c) (mask c) /\
+                         cl_row c = gauss_row G ndim (mesh c) (mask c)) ->
+  (forall P rest, unpack groups n (m0 :: ms) v cols0 = Some (P, rest) ->
+     forall c i, In c cls -> In i (cl_idx c) -> okq (geo_slice G (row_of P i))) ->
+  gradient_statement.
+Proof.
+  intros Hnv Hmodel Hadm. unfold gradient_statement.
+  apply (gradient_exact cls groups n m0 ms cols0 norm v HLm HS0 HW HV Hcl Hpart Hbg).
+  intros P rest HU c i x dp Hc Hi Hx Hdp.
+  destruct (Hmodel c Hc) as [-> ->].
+  assert (HLr : length (row_of P i) = (2 + g_np G)%nat).
+  { unfold row_of. rewrite map_length, (unpack_length _ _ _ _ _ _ _ HU). simpl. lia. }
+  apply (gauss_pixel G okq HG); [exact HLr| |exact (Hadm P rest HU c i Hc Hi)].
+  rewrite HLr, Hdp. simpl. lia.
+Qed.
+
+Theorem gradient_exact_ring :
+  length ms = (2 + g_np G)%nat ->
+  (forall c, In c cls -> cl_val c = ring_val G ndim (mesh c) (mask c) /\
+                         cl_row c = ring_row G ndim (mesh c) (mask c)) ->
+  (forall P rest, unpack groups n (m0 :: ms) v cols0 = Some (P, rest) ->
+     forall c i, In c cls -> In i (cl_idx c) ->
+       okq (geo_slice G (row_of P i)) /\ nth (2 + g_np G) (row_of P i) 0 <> 0 /\
+       forall x, In x (cl_pix c) -> mask c i x = true -> 0 < g_r2 G (mesh c x) (geo_slice G (row_of P i))) ->
+  gradient_statement.
+Proof.
+  intros Hnv Hmodel Hadm. unfold gradient_statement.
+  apply (gradient_exact cls groups n m0 ms cols0 norm v HLm HS0 HW HV Hcl Hpart Hbg).
+  intros P rest HU c i x dp Hc Hi Hx Hdp.
+  destruct (Hmodel c Hc) as [-> ->].
+  assert (HLr : length (row_of P i) = (3 + g_np G)%nat).
+  { unfold row_of. rewrite map_length, (unpack_length _ _ _ _ _ _ _ HU). simpl. lia. }
+  destruct (Hadm P rest HU c i Hc Hi) as (Hok & Hth & Hpos).
+  apply (ring_pixel G okq HG); [exact HLr| |exact Hok|exact Hth|exact (Hpos x Hx)].
+  rewrite HLr, Hdp. simpl. lia.
+Qed.
+End Instances.
